@@ -560,10 +560,8 @@ def binop(op, x, y):
     if op == "Pow":
         if x is None or y is None:
             return None
-        if not isinstance(y, int) or y < 0:
+        if not isinstance(y, int) or y < 0 or y > 64:
             raise Undef()
-        if isinstance(x, int) and abs(x) > 1 and y > 64:
-            raise Inexact()
         return x ** y
     if op == "Coalesce":
         return y if x is None else x
